@@ -129,6 +129,27 @@ func selfTest() error {
 			return fmt.Errorf("placeUnits(%q,%q) = %v, want %v", tc.units, tc.s, got, tc.want)
 		}
 	}
+	// character references: the reading's table and goldmark must agree on every word the generator draws
+	// (otherwise the cases holding the word would all be discarded), and the look-alikes must stay literal
+	for _, w := range crefWords {
+		d := []Blk{para(tx("go " + w + " on")), {K: "h", Level: 2, I: []Inl{tx("H " + w)}}}
+		html, err := goldmarkHTML([]byte(Case{Doc: d}.Markdown()), Opts{})
+		if err != nil {
+			return err
+		}
+		r2, err := readHTML(html)
+		if err != nil {
+			return fmt.Errorf("character reference %q: HTML not readable: %v", w, err)
+		}
+		if ok, why := sameReading(readAST(d), r2); !ok {
+			return fmt.Errorf("references disagree on the character reference word %q: %s", w, why)
+		}
+	}
+	for _, tc := range [][2]string{{"&Copy; &copy; &copy &#35; &#x41; &#12345678; &foo; AT&T R&D; &amp;amp;", "&Copy; © &copy # A &#12345678; &foo; AT&T R&D; &amp;"}, {"&#0;&#xD800;&", "\uFFFD\uFFFD&"}} {
+		if got := resolveRefs(tc[0]); got != tc[1] {
+			return fmt.Errorf("resolveRefs(%q) = %q, want %q", tc[0], got, tc[1])
+		}
+	}
 	if err := pkgreadSelfTest(); err != nil {
 		return err
 	}
